@@ -338,10 +338,13 @@ def plans(tier, seed):
             P.append(("expr6-" + t, dict(types=[t], ops=arith + cmp3 + ["and", "or"], unary=("neg", "not"),
                                          nodes=6, stack=3, lits=(2,), litmax=False, params=2), None))
         # statements: every program with <= 7 tokens over one signed and one unsigned narrow type ...
-        for t in ("i8", "u16"):
+        for t in ("i8", "i16", "u16"):
             P.append(("stmt7-" + t, dict(types=[t], ops=["+", "-", "*", "/", "%", "<"], unary=(), nodes=7, stack=2,
                                          stmts=("let", "set", "cset", "if"), lits=(2,), litmax=False, params=1,
                                          locals_=1, frames=1), None))
+        # u8 only, so that a condition can be a single token: if / else / nested if / else-if chains
+        P.append(("ctl10-u8", dict(types=["u8"], ops=["<"], unary=(), nodes=10, stack=2, stmts=("set", "if"),
+                                   lits=(0,), litmax=False, params=2, locals_=1, frames=2), None))
         P.append(("stmt8-i8", dict(types=["i8"], ops=["-", "/", "<"], unary=(), nodes=8, stack=2,
                                    stmts=("let", "set", "cset", "if"), lits=(2,), litmax=False, params=1,
                                    locals_=1, frames=1), None))
